@@ -16,6 +16,11 @@ struct Stk {
 }
 
 fn run_table(out: &mut crate::Out, wal: &Wallet, table: &[Stk], variants: bool, r: &mut StdRng, fam: &str) {
+    run_table_at(out, wal, table, variants, r, fam, 0)
+}
+
+/// the same at a sealed state of height `height` (the sealed genesis re-homed there through the public from_block)
+fn run_table_at(out: &mut crate::Out, wal: &Wallet, table: &[Stk], variants: bool, r: &mut StdRng, fam: &str, height: u64) {
     let db = Database::new(InMemoryCas::default());
     let mut stakes = BTreeMap::new();
     for (i, s) in table.iter().enumerate() {
@@ -24,6 +29,18 @@ fn run_table(out: &mut crate::Out, wal: &Wallet, table: &[Stk], variants: bool, 
     let a = Address(tmelcrypt::hash_single(b"x"));
     let cfg = GenesisConfig { network: NetID::Custom02, init_coindata: mk_coin(a, 1000, Denom::Mel, &[]), stakes: stakes.clone(), init_fee_pool: CoinValue(0), init_fee_multiplier: 0 };
     let sealed = cfg.realize(&db).seal(None);
+    let sealed = if height == 0 { sealed } else {
+        let hd = sealed.header();
+        let prev = Header { height: BlockHeight(height - 1), ..hd };
+        let mut hist = sealed.raw_history_smt();
+        hist.insert(tmelcrypt::hash_single(&stdcode::serialize(&BlockHeight(height - 1)).unwrap()).0, &stdcode::serialize(&prev).unwrap());
+        let nh = Header { height: BlockHeight(height), previous: prev.hash(), history_hash: tmelcrypt::HashVal(hist.root_hash()), ..hd };
+        let blk = Block { header: nh, transactions: Default::default(), proposer_action: None };
+        match std::panic::catch_unwind(std::panic::AssertUnwindSafe(|| melstf::SealedState::from_block(&blk, &sealed.raw_stakes(), &db))) {
+            Ok(s) => s,
+            Err(_) => return,
+        }
+    };
     let hh = sealed.header().hash();
     let epoch = sealed.header().height.epoch();
     let stakes_j: Vec<_> = stakes.values().map(|sd| json!({"pk": hex::encode(sd.pubkey.0), "start": js::limbs_u64(sd.e_start), "end": js::limbs_u64(sd.e_post_end),
@@ -79,6 +96,27 @@ pub fn consensus(out: &mut crate::Out, seed: u64, thorough: bool) {
     for a in opts.iter() {
         for b in opts.iter() {
             run_table(out, &wal, &[Stk { key: a.0, w: a.1, start: a.2 .0, end: a.2 .1 }, Stk { key: b.0, w: b.1, start: b.2 .0, end: b.2 .1 }], false, &mut r, "exh2");
+        }
+    }
+    // stake windows that are empty, inverted (start after end: active in no epoch) or end at the largest epoch
+    let odd: [(u64, u64); 5] = [(3, 1), (1, 0), (0, u64::MAX), (u64::MAX, 0), (u64::MAX - 1, u64::MAX)];
+    for a in opts.iter().filter(|o| o.1 > 0 && o.2 == (0, 2)) {
+        for win in odd.iter() {
+            for w in [1u128, 3, 1000] {
+                run_table(out, &wal, &[Stk { key: a.0, w: a.1, start: 0, end: 2 }, Stk { key: (a.0 + 1) % 3, w, start: win.0, end: win.1 }], false, &mut r, "odd-windows");
+            }
+        }
+    }
+    // states at other heights, around epoch boundaries: every window position relative to the state's epoch
+    for height in [199_999u64, 200_000, 200_001, 400_000, 599_999] {
+        let e = height / 200_000;
+        let wins: Vec<(u64, u64)> = vec![(e, e + 2), (e + 1, e + 3), (e, e), (e.saturating_sub(1), e), (e.saturating_sub(1), e + 1), (0, e), (0, e + 1), (e + 3, e + 1), (e, u64::MAX)];
+        for wa in wins.iter() {
+            for wb in wins.iter() {
+                for (x, y) in [(1u128, 1u128), (1, 3), (5, 2)] {
+                    run_table_at(out, &wal, &[Stk { key: 0, w: x, start: wa.0, end: wa.1 }, Stk { key: 1, w: y, start: wb.0, end: wb.1 }], false, &mut r, "epochs", height);
+                }
+            }
         }
     }
     // random larger tables, including huge weights
